@@ -43,6 +43,13 @@ static std::vector<Decl> declarations()
         D.accepted = 0;
         ds.push_back(D);
     }
+    {
+        Decl D;
+        D.items = { Item::opt("opt", "o"), Item::tog("tog", "t", false, 1) };
+        D.accepted = 1;
+        D.greedy = true;
+        ds.push_back(D);
+    }
     return ds;
 }
 
@@ -62,6 +69,9 @@ static std::vector<Event> events()
         { "--opt=a", "--opt=b" },
         { "--tog", "--no-tog" },
         { "--opt=c", "--multi=3", "--tog", "p" },
+        { "--", "a", "b", "c" },   // fails (where positionals are limited) after the switch to positional-only mode
+        { "p", "--zz" },           // fails after a positional has been collected (greedy: after the mode switch)
+        { "--", "--opt=z" },
     };
     std::vector<Env> es = { {}, { { "VP_O", "e" }, { "VP_M", "p;q" }, { "VP_T", "TRUE" } }, { { "VP_T", "maybe" }, { "VP_M", "r" } } };
     std::vector<Event> out;
@@ -329,7 +339,7 @@ int main(int argc, char** argv)
     rep.counters["bound_bfs_depth"] = bfs_depth;
     rep.counters["events"] = evs.size();
     rep.counters["declarations"] = decls.size();
-    rep.notes["rule"] = "3 declarations x every sequence of <= h events (13 argument vectors x 3 environments, succeeding and "
+    rep.notes["rule"] = "4 declarations x every sequence of <= h events (16 argument vectors x 3 environments, succeeding and "
                         "failing) on one parser object, each outcome compared with a fresh parser; then BFS de-duplicated on the "
                         "public state of the option objects; non-trivial = distinct histories of length >= 2";
     mc::write_out(a, rep);
